@@ -506,17 +506,28 @@ func codecScope(fn *ssa.Function) []*ssa.Function {
 		for _, a := range f.AnonFuncs {
 			add(a, depth)
 		}
-		if depth >= 1 {
+		if depth >= 2 {
 			return
 		}
 		for _, b := range f.Blocks {
 			for _, in := range b.Instrs {
 				if call, ok := in.(*ssa.Call); ok {
-					if cal := call.Call.StaticCallee(); cal != nil && cal.Pkg != nil && fn.Pkg != nil && cal.Pkg == fn.Pkg && cal.Signature.Recv() == nil {
-						// only unexported helpers: exported functions of the package are codecs or constructors of their own
-						if cal.Object() != nil && !cal.Object().Exported() {
-							add(cal, depth+1)
+					if cal := call.Call.StaticCallee(); cal != nil && cal.Pkg != nil && fn.Pkg != nil && cal.Pkg == fn.Pkg {
+						// only unexported helpers: exported functions of the package are codecs or constructors of their own;
+						// methods only of unexported helper types (a bit writer / reader struct)
+						if cal.Object() == nil || cal.Object().Exported() {
+							continue
 						}
+						if recv := cal.Signature.Recv(); recv != nil {
+							rt := recv.Type()
+							if p, isP := rt.Underlying().(*types.Pointer); isP {
+								rt = p.Elem()
+							}
+							if n, isN := rt.(*types.Named); !isN || n.Obj().Exported() {
+								continue
+							}
+						}
+						add(cal, depth+1)
 					}
 				}
 			}
@@ -544,6 +555,13 @@ func isShiftCount(v ssa.Value, depth int) bool {
 		}
 	}
 	return false
+}
+
+// sameFieldAddr: two FieldAddr instructions of the same field of the same struct pointer.
+func sameFieldAddr(a, b ssa.Value) bool {
+	fa, ok1 := a.(*ssa.FieldAddr)
+	fb, ok2 := b.(*ssa.FieldAddr)
+	return ok1 && ok2 && fa.X == fb.X && fa.Field == fb.Field
 }
 
 // countdown recognises a loop counter  for s := K; s >= L; s--  used as a shift count and returns
@@ -824,7 +842,7 @@ func ruleSextet(c *Ctx) *RuleResult {
 					if prev == ssa.Instruction(ld) {
 						break
 					}
-					if st, ok := prev.(*ssa.Store); ok && st.Addr == ld.X {
+					if st, ok := prev.(*ssa.Store); ok && (st.Addr == ld.X || sameFieldAddr(st.Addr, ld.X)) {
 						x = st.Val
 					}
 				}
